@@ -691,9 +691,163 @@ func TestVerifReplay(t *testing.T) {
 	if got := h.AveragePerSecond(time.Hour) * 3600; got < 2.9 || got > 3.1 {
 		t.Fatalf("REPLAY-VIOLATION TimeHeap: after Clear() and Add(3) the windowed sum is %v, not 3", got)
 	}
+	// entries leave the window oldest first, also after calls that found all entries still inside the window
+	w := NewTimeHeap()
+	w.Add(50)
+	time.Sleep(300 * time.Millisecond)
+	w.Add(1)
+	if got := w.AveragePerSecond(400*time.Millisecond) * 0.4; got < 50.9 || got > 51.1 {
+		t.Fatalf("REPLAY-VIOLATION TimeHeap: 50 and 1 are inside the window, the windowed sum is %v", got)
+	}
+	time.Sleep(250 * time.Millisecond) // the first entry (550ms old) has left a 400ms window, the second (250ms) has not
+	if got := w.AveragePerSecond(400*time.Millisecond) * 0.4; got < 0.9 || got > 1.1 {
+		t.Fatalf("REPLAY-VIOLATION TimeHeap: the entry 50 is older than the window and 1 is inside it, the windowed sum is %v", got)
+	}
 }
 `
 		return "ds", "timeheap", src, true
+	case strings.HasPrefix(o.Name, "bytesfilter."):
+		src := `package bytesfilter
+
+import (
+	"math/rand"
+	"testing"
+)
+
+type rpID [32]byte
+
+// model: the last N distinct identifiers, oldest first
+func TestVerifReplay(t *testing.T) {
+	rng := rand.New(rand.NewSource(5))
+	for _, size := range []int{1, 2, 3, 5} {
+		f := New(func(b []byte) rpID { var id rpID; copy(id[:], b); return id }, size)
+		var model []rpID
+		for step := 0; step < 400; step++ {
+			var id rpID
+			id[0] = byte(rng.Intn(size + 3))
+			known := false
+			for _, m := range model {
+				known = known || m == id
+			}
+			var added bool
+			if rng.Intn(2) == 0 {
+				added = f.AddIdentifier(id)
+			} else {
+				_, added = f.Add(id[:1])
+			}
+			if added == known {
+				t.Fatalf("REPLAY-VIOLATION BytesFilter(size %d) step %d: Add of %d returned %v, the filter remembers %v", size, step, id[0], added, model)
+			}
+			if !known {
+				model = append(model, id)
+				if len(model) > size {
+					model = model[1:]
+				}
+			}
+			for v := 0; v < size+3; v++ {
+				var q rpID
+				q[0] = byte(v)
+				want := false
+				for _, m := range model {
+					want = want || m == q
+				}
+				if f.ContainsIdentifier(q) != want || f.Contains(q[:1]) != want {
+					t.Fatalf("REPLAY-VIOLATION BytesFilter(size %d) step %d: Contains(%d) = %v, the last %d distinct identifiers are %v", size, step, v, f.ContainsIdentifier(q), size, model)
+				}
+			}
+		}
+	}
+}
+`
+		return "ds", "bytesfilter", src, true
+	case strings.HasPrefix(o.Name, "memstorage."):
+		src := `package memstorage
+
+import (
+	"testing"
+
+	"github.com/iotaledger/hive.go/ds/shrinkingmap"
+)
+
+type shrinkingmapT = shrinkingmap.ShrinkingMap[string, int]
+
+// model: a map from index to storage; Clear hands back the pairs, pairwise
+func TestVerifReplay(t *testing.T) {
+	s := NewIndexedStorage[uint32, string, int]()
+	if s.Get(3) != nil {
+		t.Fatalf("REPLAY-VIOLATION IndexedStorage.Get of a missing index without createIfMissing created a storage")
+	}
+	created := map[uint32]any{}
+	for i := uint32(0); i < 64; i++ {
+		st := s.Get(i, true)
+		if st == nil || s.Get(i) != st || s.Get(i, true) != st {
+			t.Fatalf("REPLAY-VIOLATION IndexedStorage.Get(%d, true) does not keep the storage it created", i)
+		}
+		st.Set("owner", int(i))
+		created[i] = st
+	}
+	if ev := s.Evict(7); ev != created[7] || s.Get(7) != nil || s.Evict(7) != nil {
+		t.Fatalf("REPLAY-VIOLATION IndexedStorage.Evict(7) does not hand back / remove the storage of index 7")
+	}
+	seen := 0
+	s.ForEach(func(i uint32, st *shrinkingmapT) {
+		seen++
+		if created[i] != any(st) {
+			t.Fatalf("REPLAY-VIOLATION IndexedStorage.ForEach hands out index %d with another index's storage", i)
+		}
+	})
+	keys, storages := s.Clear()
+	if len(keys) != len(storages) || len(keys) != 63 || seen != 63 {
+		t.Fatalf("REPLAY-VIOLATION IndexedStorage.Clear returned %d keys and %d storages (ForEach saw %d) of 63", len(keys), len(storages), seen)
+	}
+	for i, k := range keys {
+		if owner, _ := storages[i].Get("owner"); owner != int(k) {
+			t.Fatalf("REPLAY-VIOLATION IndexedStorage.Clear: clearedStorages[%d] is the storage of index %d, clearedKeys[%d] is %d", i, owner, i, k)
+		}
+	}
+	if s.Get(1) != nil {
+		t.Fatalf("REPLAY-VIOLATION IndexedStorage still has a storage after Clear")
+	}
+}
+`
+		return "core", "memstorage", src, true
+	case strings.HasPrefix(o.Name, "timed.time"):
+		src := `package timed
+
+import (
+	"testing"
+	"time"
+)
+
+// the two orders compare instants, also instants an int64 of nanoseconds cannot express
+func TestVerifReplay(t *testing.T) {
+	now := time.Now()
+	instants := []time.Time{time.Unix(-1<<40, 0), time.Unix(0, 0), now.Add(-time.Hour), now, now.Add(time.Nanosecond), now.Add(time.Hour), time.Date(2300, 1, 1, 0, 0, 0, 0, time.UTC), time.Date(9000, 1, 1, 0, 0, 0, 0, time.UTC)}
+	for i, a := range instants {
+		for j, b := range instants {
+			want := 0
+			if i < j {
+				want = -1
+			} else if i > j {
+				want = 1
+			}
+			if got := timeAscending(a).CompareTo(timeAscending(b)); got != want {
+				t.Fatalf("REPLAY-VIOLATION timeAscending(%v).CompareTo(%v) = %d, expected %d", a, b, got, want)
+			}
+			if got := timeDescending(a).CompareTo(timeDescending(b)); got != -want {
+				t.Fatalf("REPLAY-VIOLATION timeDescending(%v).CompareTo(%v) = %d, expected %d", a, b, got, -want)
+			}
+		}
+	}
+	q := NewPriorityQueue[string](true)
+	q.Push("far", time.Date(2300, 1, 1, 0, 0, 0, 0, time.UTC))
+	q.Push("soon", now.Add(time.Minute))
+	if due := q.PopUntil(now.Add(time.Hour)); len(due) != 1 || due[0] != "soon" {
+		t.Fatalf("REPLAY-VIOLATION ascending timed queue: PopUntil(now+1h) returned %v (a deadline in 2300 is not due)", due)
+	}
+}
+`
+		return "runtime", "timed", src, true
 	case strings.HasPrefix(o.Name, "walker.Walker."):
 		src := `package walker
 
